@@ -214,6 +214,8 @@ func (g *genState) val(depth int) amf0ref.Val {
 	k := rapid.IntRange(0, 9).Draw(t, "kind")
 	if leafOnly && k >= 5 {
 		k = k - 5
+	} else if depth == 1 && k < 5 && rapid.IntRange(0, 3).Draw(t, "top") > 0 {
+		k += 5 // most top-level values are containers
 	}
 	switch k {
 	case 0:
